@@ -201,6 +201,38 @@ def run_extra(spec, tier, seed):
                              "pickle": lambda: pickle.loads(pickle.dumps(X))})
             for aname, f in acts.items():
                 _check(res, aname, cell, watch, f)
+        # ---------------- non-vector array operands (weights, scale factors, angles) are operands too
+        wbase = numpy.linspace(0.5, 2.25, 2 * n)
+        WT = {"float64": wbase[:n].copy(), "strided-view": wbase[::2], "0-d": numpy.array(1.75), "length-1": numpy.array([1.75]),
+             "float32": wbase[:n].astype(numpy.float32), "int64": numpy.arange(1, n + 1), "read-only": wbase[:n].copy()}
+        WT["read-only"].flags.writeable = False
+        jw = ak.Array(awk.map_struct(awk.structures(n)["jagged"], lambda i: float(wbase[i])))
+        for wname, w in list(WT.items()) + [("awkward-jagged", jw)]:
+            for oname, X in (("numpy", A), ("numpy-view", view), ("awkward-jagged", jag), ("object", o)):
+                if (wname == "awkward-jagged") != (oname == "awkward-jagged") and not (oname == "object"):
+                    continue  # shapes that do not broadcast against each other
+                if oname == "awkward-jagged" and wname != "awkward-jagged":
+                    continue
+                cell = f"{sn}|{'mom' if mom else 'gen'}|{oname}|weights={wname}"
+                watch = [X, w] + ([big] if oname == "numpy-view" else []) + ([wbase] if wname == "strided-view" else [])
+                wacts = {
+                    "v*w": lambda: X * w, "w*v": lambda: w * X, "v/w": lambda: X / w, "v/w twice": lambda: (X / w, X / w)[1],
+                    "scale(w)": lambda: X.scale(w), "numpy.multiply(v,w)": lambda: numpy.multiply(X, w),
+                    "numpy.multiply(w,v)": lambda: numpy.multiply(w, X), "numpy.true_divide(v,w)": lambda: numpy.true_divide(X, w),
+                    "v**w": lambda: X ** w, "numpy.power(v,w)": lambda: numpy.power(X, w), "rotateZ(w)": lambda: X.rotateZ(w),
+                    "isclose(rtol=w)": lambda: X.isclose(X, rtol=w),
+                }
+                if dim >= 3:
+                    wacts["rotateX(w)"] = lambda: X.rotateX(w)
+                    wacts["scale3D(w)"] = lambda: X.scale3D(w)
+                if dim == 4:
+                    wacts["boostZ(beta=w/4)"] = lambda: X.boostZ(beta=w / 4)
+                    wacts["boostX(gamma=w+1)"] = lambda: X.boostX(gamma=w + 1)
+                if dim == 2:
+                    wacts["to_Vector3D(z=w)"] = lambda: X.to_Vector3D(z=w)
+                    wacts["to_Vector4D(z=w,t=w)"] = lambda: X.to_Vector4D(z=w, t=w)
+                for aname, f in wacts.items():
+                    _check(res, "weights:" + aname, cell, watch, f)
         # ---------------- viewing a plain structured array as a vector class must not change the viewed array
         names = B.names_for(system, mom, spelling=0)
         plain = numpy.array(rows, dtype=[(nm, numpy.float64) for nm in names])
